@@ -166,6 +166,28 @@ Theorem C17_keyword_clause_print : forall n, lex_ok_print n -> c17_kw_clause n =
 Proof. exact lex_ok_print_kw_clause. Qed.
 Print Assumptions C17_keyword_clause_print.
 
+(* the converse, at tree level: lex_ok is EXACTLY "shape" + the clause.  lex_shape (Proofs/LexKeywordProofs.v) is
+   lex_ok with "is an ASCII word" in place of "is an ASCII word that is not a keyword" at the identifiers printed
+   bare, every other clause unchanged (literal shapes, access keys); so the decidable clause the harness evaluates
+   is all that lex_ok demands of identifiers beyond their shape, for whole trees and for print commands *)
+Theorem C17_lex_ok_is_shape_and_keyword_clause : forall e, lex_ok e <-> lex_shape e /\ c17_kw_clause e = true.
+Proof. exact lex_ok_iff. Qed.
+Print Assumptions C17_lex_ok_is_shape_and_keyword_clause.
+
+Theorem C17_lex_ok_print_is_shape_and_keyword_clause : forall n, lex_ok_print n <-> lex_shape_print n /\ c17_kw_clause n = true.
+Proof. exact lex_ok_print_iff. Qed.
+Print Assumptions C17_lex_ok_print_is_shape_and_keyword_clause.
+(* non-vacuity: and(1) has the shape and fails only the clause; round($a.b, 'x') has both *)
+Example C17_ex_shape_without_clause :
+  lex_shape (NFunc 0 (b "and") [NInt 0 1]) /\ c17_kw_clause (NFunc 0 (b "and") [NInt 0 1]) = false /\
+  lex_shape (NFunc 0 (b "round") [NDataRef 0 (b "a") [NAccKey 0 false (b "b")]]) /\
+  c17_kw_clause (NFunc 0 (b "round") [NDataRef 0 (b "a") [NAccKey 0 false (b "b")]]) = true.
+Proof.
+  split; [split; [exists 97, (b "nd"); repeat split; try reflexivity; lia|split; exact I]|]. split; [vm_compute; reflexivity|].
+  split; [|vm_compute; reflexivity].
+  split; [exists 114, (b "ound"); repeat split; try reflexivity; lia|]. split; [|exact I]. split; [reflexivity|]. split; [|exact I]. split; reflexivity.
+Qed.
+
 (* the clause is needed: a function named like a keyword prints as text that the scanner reads differently *)
 Example C17_ex_keyword_name :
   c17_kw_clause (NFunc 0 (b "and") []) = false /\ c17_kw_clause (NFunc 0 (b "round") [NGlobal 0 (b "a.and") (VNull)]) = true /\
